@@ -243,8 +243,13 @@ def run(tier, seed, replay):
                 continue
             k = n % 3
             exprs.append('<v a="{{ %s }}"/>' % t if k == 0 else ('{{ %s }}' % t if k == 1 else '<v wx:if="{{ %s }}"/>' % t))
+            # .. and as the data of a template reference (in parentheses: an expression, not the fields of an object
+            # literal - constants included) or as the list of a wx:for
+            exprs.append('<template is="t" data="{{ (%s) }}"/>' % t if n % 2 == 0 else '<v wx:for="{{ %s }}" wx:key="k">{{ item }}</v>' % t)
         for k in range(0, len(exprs), 400):
             groups.append(("expression trees", [["x%d" % i, t] for i, t in enumerate(exprs[k:k + 400])], []))
+        groups.append(("constant template data", [["d%d" % i, '<template name="t"/><template is="t" data="{{ %s }}"/>' % t] for i, t in enumerate(
+            ["5", "'abc'", "(null)", "1 + 2", "true", "undefined", "[1, 2]", "[]", "-1", "!0", "'a' + 'b'", "1 ? 2 : 3", "(5)", "0x1F", "''"])], []))
         # ---- size sweep
         sizes = [1000, 3000, 20000] if tier == "quick" else [1000, 3000, 20000, 60000, 210000]
         for n in sizes:
